@@ -359,7 +359,21 @@ func genTypesFacts(repo string) string {
 	list("identityComparisons", "comparisons (==, !=, switch) between values of object types", sortU(identity))
 	list("mutationSites", "in-place writes to fields of object values, and calls of Increase/Decrease/Reset/Next", sortU(mutators))
 	list("packageVars", "package-level variables of the library", gl)
-	list("packageVarAccesses", "\"<var>|<pkg:function>|<read|write>|<mutex held or ->\" for every use of a package-level variable", sortU(accesses))
+	sb.WriteString("/-- every use of a package-level variable: (variable, package:function, read|write, mutex held or \"-\", \"init\" if inside an init function else \"other\") -/\ndef packageVarAccesses : List (String × String × String × String × String) := [\n")
+	acc := sortU(accesses)
+	for i, a := range acc {
+		parts := strings.Split(a, "|")
+		sep := ","
+		if i == len(acc)-1 {
+			sep = ""
+		}
+		where := "other"
+		if strings.HasSuffix(parts[1], ":init") {
+			where = "init"
+		}
+		fmt.Fprintf(&sb, "  (%s, %s, %s, %s, %s)%s\n", leanStr(parts[0]), leanStr(parts[1]), leanStr(parts[2]), leanStr(parts[3]), leanStr(where), sep)
+	}
+	sb.WriteString("]\n\n")
 	sb.WriteString("end EvalFilter.Generated\n")
 	return sb.String()
 }
